@@ -21,7 +21,7 @@ use pretty::RcDoc;
 
 use crate::token::regex_constants;
 
-use super::token::{Comment, WrappedToken};
+use super::token::{Comment, Token, WrappedToken};
 
 // Add brackets
 pub fn add_brackets<'a>(
@@ -93,12 +93,41 @@ pub fn get_leading_comment_at_start<'src>(
     Some(get_token_at_start(span, tokens)?.consume_leading_comment())
 }
 
+fn is_closing_bracket(t: &Token) -> bool {
+    matches!(t, Token::RParen | Token::RBracket | Token::RBrace)
+}
+
+/// If the token at `comma_idx` is a trailing comma (a comma directly followed
+/// by a closing bracket), move its comments in front of the closing bracket's
+/// own comments and return the index of the closing bracket. The formatter
+/// does not print trailing commas, so without this their comments would never
+/// be consumed.
+fn absorb_trailing_comma(tokens: &mut [WrappedToken<'_>], comma_idx: usize) -> Option<usize> {
+    let bracket_idx = comma_idx + 1;
+    if !matches!(tokens.get(comma_idx)?.token, Token::Comma)
+        || !is_closing_bracket(&tokens.get(bracket_idx)?.token)
+    {
+        return None;
+    }
+    let comma_comment = tokens.get_mut(comma_idx)?.consume_comment();
+    tokens
+        .get_mut(bracket_idx)?
+        .comment
+        .prepend_comment(&comma_comment);
+    Some(bracket_idx)
+}
+
 fn get_token_after_end<'a, 'src>(
     span: Option<miette::SourceSpan>,
     tokens: &'a mut [WrappedToken<'src>],
 ) -> Option<&'a mut WrappedToken<'src>> {
     let span = span?;
     let end = span.offset() + span.len();
+    if let Some(idx) = tokens.iter().position(|t| t.span.start >= end) {
+        if let Some(bracket_idx) = absorb_trailing_comma(tokens, idx) {
+            return tokens.get_mut(bracket_idx);
+        }
+    }
     tokens.iter_mut().find_or_first(|t| t.span.start >= end)
 }
 
@@ -108,6 +137,11 @@ fn get_token_at_end<'a, 'src>(
 ) -> Option<&'a mut WrappedToken<'src>> {
     let span = span?;
     let end = span.offset() + span.len();
+    if let Some(idx) = tokens.iter().position(|t| t.span.end == end) {
+        if idx > 0 && is_closing_bracket(&tokens.get(idx)?.token) {
+            absorb_trailing_comma(tokens, idx - 1);
+        }
+    }
     tokens.iter_mut().find(|t| t.span.end == end)
 }
 
